@@ -154,12 +154,12 @@ func pstOracle(ck *checker, what string, uplo blas.Uplo, a M, r pstRun, tol floa
 }
 
 func genPst(g *vlib.G) {
-	N := vlib.Pick(g, 10, 12)
-	nbs := vlib.Pick(g, []int{2, 3, 4}, []int{1, 2, 3, 4})
-	fams := symFams(N, false)
+	N := vlib.Pick(g, 12, 14)
+	nbs := vlib.Pick(g, []int{1, 2, 3, 4}, []int{1, 2, 3, 4, 5})
+	fams := symFams(N, true)
 	for n := 0; n <= N; n++ {
 		for _, f := range fams {
-			if len(f.name) > 7 && f.name[:7] == "negdiag" && !f.notPD(n) {
+			if k, ok := posFam(f.name); ok && k >= n {
 				continue
 			}
 			for _, uplo := range uplos {
